@@ -92,6 +92,9 @@ def op_cases(draw):
 
 
 def lit(v):
+    if v[0] == 'date':
+        import datetime
+        return datetime.date.fromisoformat(v[1])
     return models.lit_val(v)
 
 
@@ -454,6 +457,11 @@ def enum_defaults(shard, nshards):
                 if i % nshards == shard:
                     yield {'kind': 'defaults', 'attrs': [[d, None, v]], 'via': via}
                 i += 1
+    # values that are not of the five scalar kinds (a date) against look-alike defaults
+    for d in (['str', '2020-01-01'], ['none'], ['int', 3], ['str', '']):
+        if i % nshards == shard:
+            yield {'kind': 'defaults', 'attrs': [[d, None, ['date', '2020-01-01']]], 'via': 'dump'}
+        i += 1
     for o in DEFAULT_POOL[:10]:
         for v in DEFAULT_POOL[:12]:
             if i % nshards == shard:
